@@ -64,7 +64,9 @@ type FnCtx struct {
 	conformIface  bool      // conformance job: fc.con is an interface method's contract, `self` is the receiver
 	conformImpl   *Contract // conformance job: the implementation's contract (fc.con is the interface method's contract)
 	prefixOverride string
+	lastRef       string
 	curBinds      []Val // captured values of the closure being called by contract
+	freshReach    map[string]string // reach condition under which each such object was allocated
 	freshT        map[string]types.Type // struct objects allocated by this function (incl. inlined callees)
 	volatileNames map[string]bool // heap names havocked at a monitor acquisition (other threads' writes): exempt from the frame check
 	inAcquire     bool
@@ -269,6 +271,12 @@ func (fc *FnCtx) newRef(st *State, hint string) string {
 	r := fc.sc.fresh(hint, "Int")
 	a := fc.alloc(st)
 	fc.sc.assume(tAnd(sx(">", r, "0"), tNot(tSel(a, r))))
+	// references created at different program points are distinct objects, also
+	// across branches (the allocation sets of sibling branches are unrelated terms)
+	if fc.lastRef != "" {
+		fc.sc.assume(sx(">", r, fc.lastRef))
+	}
+	fc.lastRef = r
 	st.heap["Alloc"] = fc.nameTerm("alloc", "(Array Int Bool)", tStore(a, r, "true"))
 	fc.nonNil[r] = true
 	fc.freshObj[r] = true
